@@ -77,7 +77,7 @@ def test_exprs(spec, seed=None):
     return out
 
 
-GRIDS = [('control', {}), ('control-', {}), ('-control', {}), ('-control-', {}), ('integrator', {}), ('integrator', {'refine': 2}), ('integrator', {'refine': 3}), ('integrator_roots', {})]      # (refine on grid='control' is honoured by SplineMethod only: C17)
+GRIDS = [('control', {}), ('integrator-', {}), ('control-', {}), ('-control', {}), ('-control-', {}), ('integrator', {}), ('integrator', {'refine': 2}), ('integrator', {'refine': 3}), ('integrator_roots', {})]      # (refine on grid='control' is honoured by SplineMethod only: C17)
 
 
 def instances(tier, seed):
@@ -191,7 +191,7 @@ def run(item):
         r_, c_ = shape
         npts = len(ex['z'][e_idx]) // (r_ * c_)
         # the returned time vector has one entry per returned value, and is what sampling ocp.t on that grid gives
-        want_n = {'control': N + 1, 'control-': N, '-control': N, '-control-': N - 1, 'integrator': N * M * kw.get('refine', 1) + 1,
+        want_n = {'control': N + 1, 'control-': N, '-control': N, '-control-': N - 1, 'integrator': N * M * kw.get('refine', 1) + 1, 'integrator-': N * M,
                   'integrator_roots': N * M * cfg.degree}[g]
         if npts != want_n:
             V('point-count:%s' % g, 'sample(%s,%s)' % (name, glab), '%d points returned, the grid has %d' % (npts, want_n))
@@ -267,6 +267,8 @@ def run(item):
             # a leading '-' drops the first node: point i is control node i+1
             i = i + 1
             g = 'control'
+        if g == 'integrator-':
+            g = 'integrator'       # the integrator grid without its final point
         if g == 'control' and 'refine' in kw:
             # refined control grid: point i lies in control interval i//r at the fraction (i%r)/r; the very last point is the final node
             r_ = kw['refine']
@@ -444,7 +446,7 @@ def run(item):
                 with quiet():
                     m_ = ca.vcat([ca.hcat([inst.b.mx(e) for e in row]) for row in mat])
                     tt_, vv_ = sol_.sample(m_, grid=g)
-                want_n = {'control': N + 1, 'control-': N, '-control': N, '-control-': N - 1, 'integrator': N * M + 1, 'integrator_roots': N * M * cfg.degree}[g]
+                want_n = {'control': N + 1, 'control-': N, '-control': N, '-control-': N - 1, 'integrator': N * M + 1, 'integrator-': N * M, 'integrator_roots': N * M * cfg.degree}[g]
                 want_shape = tuple([want_n] + [s_ for s_ in (len(mat), len(mat[0])) if s_ != 1])
                 if np.shape(tt_) != (want_n,) or np.shape(vv_) != want_shape:
                     V('readback-shape', 'sol.sample(%s,%s)' % (name, g), 'sol.sample returned a time array of shape %s and values of shape %s for a %dx%d expression on %d time points (expected (%d,) and %s)' % (
